@@ -444,6 +444,7 @@ def callValue : Nat → Nat → Val → List Val → M Val
           reflectM ret
         | [] => throw .unc
       | .error => throw (.rt l)
+      | .okAny => throw .unc
       | .any => throw .unc
     | _ => throw (.rt l)
 
